@@ -31,9 +31,17 @@ pub const UNFORMATTED: &[&str] = &[
     "local long = call(aaaaaaaaaaaa, bbbbbbbbbbbbb, cccccccccccc, dddddddddddd, eeeeeeeeeee, ffffffffff)\n",
     "repeat x = x + 1 until x > 10\n",
     "local m = { [1] = 'a', [\"k\"] = 'b' }\n",
+    "",
+    "\n\n\n",
+    "local   t = 1\n\n\n\n",
+    // formatted except for the line terminators / the final newline
+    "local a = 1\r\nlocal b = 2\r\n",
+    "local q = 1",
+    "local a = 1\nlocal b = 2\r\n",
 ];
 
-pub const UNPARSEABLE: &[&str] = &["local = = 1\n", "x = = 2\n", "function end end\n", "if then\n", "return return\n"];
+pub const UNPARSEABLE: &[&str] =
+    &["local = = 1\n", "x = = 2\n", "function end end\n", "if then\n", "return return\n", "\u{feff}local bom = 1\n"];
 
 /// Formatted text differs for every value of every option (self-checked by `probe_selfcheck`).
 pub const PROBE: &str = "local b = require(\"b\")\nlocal a = require(\"a\")\nlocal s1 = \"plain\"\nlocal s2 = 'has\"dq'\nlocal s3 = \"has'sq\"\nf(\"x\")\ng({ 1 })\nh \"y\"\nk { 2 }\nfunction foo(p)\n\tif p then\n\t\treturn\n\tend\n\tlocal r = bar(p)\n\treturn function()\n\t\treturn r\n\tend\nend\nlocal l30 = call(aaaaaa, bbbbbb, cccc)\nlocal l50 = call(aaaaaaaaaa, bbbbbbbbbb, cccccccccc, ddd)\nlocal l70 = call(aaaaaaaaaaaaaa, bbbbbbbbbbbbbb, cccccccccccccc, dddddddddd)\nlocal l90 = call(aaaaaaaaaaaaaaaaaaa, bbbbbbbbbbbbbbbbbbb, ccccccccccccccccccc, ddddddddddddddd)\nlocal l110 = call(aaaaaaaaaaaaaaaaaaaaaaaa, bbbbbbbbbbbbbbbbbbbbbbbb, cccccccccccccccccccccccc, dddddddddddddddddddd)\nlocal l135 = call(aaaaaaaaaaaaaaaaaaaaaaaaaaaaaa, bbbbbbbbbbbbbbbbbbbbbbbbbbbbbb, cccccccccccccccccccccccccccccc, ddddddddddddddddddddddddddd)\n";
@@ -106,19 +114,30 @@ pub fn toml_text(opts: &[(String, String)]) -> String {
 
 /// A malformed stylua.toml: misspelt key, wrong value type, unknown table, bad enum value.
 pub fn malformed_toml(rng: &mut Rng) -> (String, &'static str) {
-    match rng.below(6) {
+    match rng.below(10) {
         0 => ("colum_width = 80\n".into(), "misspelt-key"),
         1 => ("column_width = \"wide\"\n".into(), "wrong-type-string-for-int"),
         2 => ("quote_style = 3\n".into(), "wrong-type-int-for-enum"),
         3 => ("indent_type = \"Tabs\"\n\n[formatting]\nfoo = 1\n".into(), "unknown-table"),
         4 => ("quote_style = \"ForceTriple\"\n".into(), "bad-enum-value"),
-        _ => ("indent_type = \"tabs\"\n".into(), "wrong-case-enum-value"),
+        5 => ("indent_type = \"tabs\"\n".into(), "wrong-case-enum-value"),
+        6 => ("[sort_requires]\nenable = true\n".into(), "misspelt-key-in-sort-requires-table"),
+        7 => ("[sort_requires]\nenabled = true\nextra = 1\n".into(), "unknown-key-in-sort-requires-table"),
+        8 => ("[sort_requires]\nenabled = \"yes\"\n".into(), "wrong-type-in-sort-requires-table"),
+        _ => ("column_width = 100\n\n[sort_requires.nested]\nx = 1\n".into(), "unknown-subtable"),
     }
 }
 
 pub fn editorconfig_text(rng: &mut Rng) -> String {
     let mut s = String::new();
-    let sections: &[&str] = if rng.chance(50) { &["*.lua"] } else if rng.chance(50) { &["*"] } else { &["*", "*.lua"] };
+    let sections: &[&str] = match rng.below(10) {
+        0..=3 => &["*.lua"],
+        4..=5 => &["*"],
+        6 => &["*", "*.lua"],
+        7 => &["*.lua", "p0.lua"],
+        8 => &["p1.lua", "*.luau"],
+        _ => &["*", "p0.lua", "p1.lua"],
+    };
     for sec in sections {
         s.push_str(&format!("[{sec}]\n"));
         let n = rng.range(1, 3);
@@ -165,7 +184,34 @@ pub fn random_sched(rng: &mut Rng) -> Sched {
 }
 
 pub fn random_threads(rng: &mut Rng) -> usize {
+    if rng.chance(35) {
+        return rng.range(1, 16) as usize;
+    }
     rng.pick_weighted(&[(1usize, 15), (2, 20), (3, 20), (4, 15), (6, 8), (8, 8), (12, 6), (16, 8)])
+}
+
+/// The world C19's quantifier names: a missing path, an unparseable file and an unformatted
+/// file (plus optionally a formatted one), as explicit arguments in a random order.
+pub fn gen_c19_canonical(rng: &mut Rng) -> Case {
+    let mut w = base_world();
+    w.files.insert(wpath("", "bad.lua"), rng.pick(UNPARSEABLE).as_bytes().to_vec());
+    w.files.insert(wpath("", "ugly.lua"), rng.pick(UNFORMATTED).as_bytes().to_vec());
+    let mut args: Vec<String> = vec!["bad.lua".into(), "ugly.lua".into(), "missing.lua".into()];
+    if rng.chance(50) {
+        w.files.insert(wpath("sub", "ugly2.lua"), rng.pick(UNFORMATTED).as_bytes().to_vec());
+        args.push("sub".into());
+    }
+    if rng.chance(30) {
+        w.files.insert(wpath("", "fine.lua"), b"local fine = 1\n".to_vec());
+        args.push("fine.lua".into());
+    }
+    rng.shuffle(&mut args);
+    let mut opts = Opts { check: rng.chance(70), num_threads: random_threads(rng), files: args, ..Default::default() };
+    if opts.check {
+        opts.output_format = rng.pick(&[None, Some("unified"), Some("json"), Some("summary")]).map(|s| s.to_string());
+    }
+    let inv = Invocation { opts, stdin: None, faults: vec![], sched: random_sched(rng), dir_key: rng.next() };
+    Case { family: "c19-canonical".into(), world: w, invs: vec![inv] }
 }
 
 // ---------------------------------------------------------------------------------------------
@@ -213,7 +259,7 @@ fn base_world() -> World {
 }
 
 const DIRS: &[&str] = &["", "sub", "sub/deep", "lib"];
-const NAMES: &[&str] = &["a.lua", "b.lua", "c.lua", "d.lua", "e.lua", "m.luau"];
+const NAMES: &[&str] = &["a.lua", "b.lua", "c.lua", "d.lua", "m.lua", "m.luau"];
 
 fn wpath(dir: &str, name: &str) -> String {
     if dir.is_empty() {
@@ -345,6 +391,11 @@ pub fn gen_status(rng: &mut Rng) -> Case {
             let f = rng.pick(&cands);
             faults.push(fault("fs.read", f, rng.pick(&["EACCES", "EIO"])));
         }
+    }
+    // stream faults on the diff output: EINTR / short writes must be invisible, EPIPE is an error
+    if rng.chance(12) {
+        let (kind, arg) = rng.pick(&[("EINTR", 0u64), ("short", 1), ("short", 7), ("EPIPE", 0)]);
+        faults.push(Fault { site: "stdout.write".into(), path: String::new(), nth: rng.below(3) as u32, kind: kind.into(), arg });
     }
     let inv = Invocation { opts, stdin: None, faults, sched: random_sched(rng), dir_key: rng.next() };
     Case { family: "status".into(), world: w, invs: vec![inv] }
@@ -684,6 +735,7 @@ pub fn gen_stdin(rng: &mut Rng, big: bool) -> Case {
         2 => b"local x = 1\n\xff\xfe\n".to_vec(),
         3 => PROBE.as_bytes().to_vec(),
         4 => PROBE.replace('\n', "\r\n").into_bytes(),
+        6 => "\u{feff}local   bom = 1\n".as_bytes().to_vec(),
         5 if big => {
             let mut s = String::new();
             let reps = 2000 + rng.below(20000);
